@@ -63,6 +63,9 @@ func (cc *checkCtx) replay(o *Obligation) (string, bool) {
 	if vc != nil && vc.pair != nil {
 		rf.Package = "./" + vc.fn.Pkg.Pkg.Name()
 		rf.TestSource = pairReplaySource(vc.fn.Name(), vc.pair.cA, vc.pair.cB)
+		if vc.pair.cross != nil {
+			rf.TestSource = crossReplaySource(vc.fn.Name(), vc.pair.fnB.Name(), vc.pair.cross.Src)
+		}
 		rf.ModelNote = "two-run lemma: replayed by a differential test of the real state function on every reached dispatch in the fixture documents (and their CR / tab rewritings)"
 		rf.Expect = "REPLAY-CONFIRMED"
 		if out, ok := pairReplayCache[vc.key]; ok {
